@@ -749,6 +749,9 @@ class Gen:
             if mode in STRING_MODES:
                 lits = [self.elem_value(t0["e"], mode, False) for _ in range(max(1, n))]
                 lits = [x if "s" in x else ds("1") for x in lits]
+                if rng.random() < 0.15:
+                    # one value holding a comma is ONE element (rest/httpx does not split it)
+                    lits = [ds(",".join(x["s"] for x in lits + lits[:1]))]
                 return {"a": lits}
             return {"a": [self.elem_value(t0["e"], mode, False) for _ in range(n)]}
         n = rng.choice([0, 1, 2])
@@ -1728,6 +1731,14 @@ def tagsyntax(rng):
         for pairs in ([], [("a", scalar_for(mode, "z"))], [("o", ds("p,q") if mode != "form" else {"a": [ds("p,q")]})],
                       [("o", ds("p") if mode != "form" else {"a": [ds("p")]})]):
             cases.append(finish({"mode": mode, "type": St(copy.deepcopy(fa), copy.deepcopy(fo)), "doc": dobj(pairs), "intent": "tag-escape"}))
+    # one parameter value with commas for a slice field
+    for mode in ("form", "httpx-form", "header", "httpx-header", "dform"):
+        for kind, vals in (("int", ["1,2", "1", "1,", ",1", "1, 2"]), ("string", ["a,b", "a", ",", "a,,b"]), ("float64", ["1.5,2"]),
+                           ("bool", ["true,false"])):
+            for v in vals:
+                for extra in ([], [ds("3" if kind != "bool" else "true")]):
+                    cases.append(finish({"mode": mode, "type": St(F("a", Sl(P(kind)), O(opt=True))),
+                                         "doc": dobj([("a", {"a": [ds(v)] + extra})]), "intent": "comma-values"}))
     # an empty alternative among the options; options with spaces and non-ASCII letters
     for mode in ("json", "key", "path", "header", "httpx-form", "form", "httpx-header"):
         for opts in (["x", "", "y"], ["a b", "\u00fc", "\u4e2d"], ["", "z"], ["1", "1.0", "+1"]):
